@@ -74,12 +74,17 @@ def is_shared_param(fn, pl):
     return d['ty'].startswith('&') and not d['ty'].startswith('&mut')
 
 
-def bounds_site(fn, site):
-    """(container place, constant index) of a BoundsCheck assert, else None"""
+def bounds_site(fn, site, many=False):
+    """(container place, constant index) of a BoundsCheck assert, else None; many=True: the index may be one of several constants
+    (`if c { 1 } else { 2 }`), and their maximum is returned"""
     t = site['term']
     if t['k'] != 'assert' or t['kind'] != 'BoundsCheck':
         return None
     k = const_of(fn, t['index'])
+    if k is None and many:
+        ks = const_set_of(fn, t['index'])
+        if ks and all(isinstance(x, int) and not isinstance(x, bool) and x >= 0 for x in ks):
+            k = max(ks)
     lp = op_place(t['len'])
     if k is None or lp is None or not is_local(lp):
         return None
@@ -183,7 +188,11 @@ class Lemmas:
     def get(self, name):
         if name not in self.cache:
             try:
-                ok, why = getattr(self, 'lemma_' + name)()
+                if ':' in name:
+                    kind, fname = name.split(':', 1)
+                    ok, why = getattr(self, 'lemma_' + kind)(fname)
+                else:
+                    ok, why = getattr(self, 'lemma_' + name)()
             except Exception as e:
                 ok, why = False, 'lemma evaluation failed: %r' % (e,)
             self.cache[name] = (ok, why)
@@ -234,7 +243,7 @@ class Lemmas:
                     n_ok += 1
         return n_ok > 0, 'Value::%s returns Ok(tuple.clone()) only for Value::Tuple on the true edge of its length test' % fname
 
-    def lemma_fixed(self):
+    def lemma_fixed(self, fname='as_fixed_len_tuple'):
         def cond(v):
             if v[0] == 'app' and v[1] == 'binop:Eq':
                 a, b = v[2]
@@ -242,12 +251,12 @@ class Lemmas:
                     if y == SYM('bound') and x[0] == 'app' and x[1].endswith('::len') and x[2] == (SYM('payload'),):
                         return True
             return False
-        return self._tuple_lemma('as_fixed_len_tuple', cond)
+        return self._tuple_lemma(fname, cond)
 
-    def lemma_ranged(self):
+    def lemma_ranged(self, fname='as_ranged_len_tuple'):
         def cond(v):
             return v[0] == 'app' and v[1].endswith('::contains') and len(v[2]) == 2 and v[2][0] == SYM('bound') and v[2][1][0] == 'app' and v[2][1][1].endswith('::len') and v[2][1][2] == (SYM('payload'),)
-        return self._tuple_lemma('as_ranged_len_tuple', cond)
+        return self._tuple_lemma(fname, cond)
 
     def lemma_enough(self):
         """!is_leaf(op) && has_enough_children(node)  ==>  node.children.len() >= 1"""
@@ -409,7 +418,8 @@ def _tuple_origin(fn, lem, local):
     """local is the Continue payload of as_fixed_len_tuple(_, n)? / as_ranged_len_tuple(_, a..=b)?  -> (min_len, cont_block, desc)"""
     for b, t in fn.calls():
         name = t['callee']['name']
-        if name not in ('as_fixed_len_tuple', 'as_ranged_len_tuple') or not t['callee'].get('local'):
+        # any accessor of Value named *_fixed_len_tuple / *_ranged_len_tuple whose own lemma holds (as_* clones, borrow_* lends the slice)
+        if not (name.endswith('fixed_len_tuple') or name.endswith('ranged_len_tuple')) or not t['callee'].get('local') or 'value::Value' not in t['callee']['def']:
             continue
         qm = question_mark(fn, b)
         if qm is None or local not in continue_payload_local(fn, qm):
@@ -417,10 +427,10 @@ def _tuple_origin(fn, lem, local):
         # the local must have no other definition
         if len(fn.defs().get(local, [])) != 1:
             continue
-        if name == 'as_fixed_len_tuple':
+        if name.endswith('fixed_len_tuple'):
             n = const_of(fn, t['args'][1])
-            if isinstance(n, int) and lem.get('fixed'):
-                return n, qm['cont'], 'as_fixed_len_tuple(_, %d)?' % n
+            if isinstance(n, int) and lem.get('fixed:' + name):
+                return n, qm['cont'], '%s(_, %d)?' % (name, n)
         else:
             pl = op_place(t['args'][1])
             if pl is None or not is_local(pl):
@@ -429,18 +439,43 @@ def _tuple_origin(fn, lem, local):
             if cd is None or not callee_matches(cd[1], ['ops::RangeInclusive::<Idx>::new']):
                 continue
             a = const_of(fn, cd[1]['args'][0])
-            if isinstance(a, int) and lem.get('ranged'):
-                return a, qm['cont'], 'as_ranged_len_tuple(_, %d..=_)?' % a
+            if isinstance(a, int) and lem.get('ranged:' + name):
+                return a, qm['cont'], '%s(_, %d..=_)?' % (name, a)
     return None
 
 
 def G_tuplelen(ctx, prog, lem, site):
     fn = site['fn']
     t = site['term']
+    if t['k'] == 'assert' and t.get('kind') == 'BoundsCheck':
+        # `args[k]` on the slice lent by borrow_fixed_len_tuple(_, n)? / borrow_ranged_len_tuple(_, a..=b)?
+        bs = bounds_site(fn, site, many=True)
+        if bs is None:
+            return None
+        container, k = bs
+        base = strip_trailing_deref(container)
+        org = None
+        if not base['p']:
+            org = _tuple_origin(fn, lem, base['l'])
+        elif len(base['p']) == 2 and isinstance(base['p'][0], dict) and base['p'][0].get('name') == 'Continue' and isinstance(base['p'][1], dict) and base['p'][1].get('f') == 0:
+            # the slice is read straight out of the `?` result: find the accessor call whose Try::branch produced that local
+            for b_, t_ in fn.calls():
+                nm_ = t_['callee']['name']
+                if (nm_.endswith('fixed_len_tuple') or nm_.endswith('ranged_len_tuple')) and t_['callee'].get('local'):
+                    qm_ = question_mark(fn, b_)
+                    if qm_ is not None and is_local(qm_['d']) and qm_['d']['l'] == base['l']:
+                        for pl_ in continue_payload_local(fn, qm_):
+                            org = org or _tuple_origin(fn, lem, pl_)
+        if org is None:
+            return None
+        n, cont, desc = org
+        if k < n and not fn.defs().get(base['l'], [])[1:] and fn.edge_dominates((fn.pred(cont)[0], cont) if len(fn.pred(cont)) == 1 else (cont, cont), site['block']) | (site['block'] in fn.reachable_from(cont) and fn.dominates(cont, site['block'])):
+            return 'index %d < %d: the slice is the Continue payload of %s (its lemma holds), a shared borrow that cannot change' % (k, n, desc)
+        return None
     if t['k'] != 'call':
         return None
     is_index = t['callee']['name'] == 'index' and path_endswith(t['callee'].get('trait') or '', 'ops::Index') and 'Vec<' in (t['callee'].get('self_ty') or '')
-    is_swap = callee_matches(t, ['vec::Vec::<T, A>::swap_remove'])
+    is_swap = callee_matches(t, ['vec::Vec::<T, A>::swap_remove']) or callee_matches(t, ['vec::Vec::<T, A>::remove'])
     if not (is_index or is_swap):
         return None
     v = arg_place(fn, t, 0)
